@@ -23,6 +23,9 @@ type Stim struct {
 	Ev    *model.Ev     `json:"ev,omitempty"`
 	Ans   *model.Answer `json:"ans,omitempty"`
 	Burst []Stim        `json:"burst,omitempty"` // issued concurrently from separate goroutines
+	// kind "clock": advance the instance's mock clock by ClockS seconds; Ev (if
+	// set) is the timer firing the model receives afterwards
+	ClockS int `json:"clockS,omitempty"`
 }
 
 func (s Stim) String() string {
@@ -31,6 +34,8 @@ func (s Stim) String() string {
 		return fmt.Sprintf("answer#%d", s.Pick)
 	case "event":
 		return fmt.Sprintf("event(%s %s %s)", s.Ev.Kind, s.Ev.Ref, s.Ev.Op)
+	case "clock":
+		return fmt.Sprintf("clock+%ds", s.ClockS)
 	case "burst", "rapid":
 		var parts []string
 		for _, b := range s.Burst {
